@@ -67,6 +67,7 @@ Record wres := {
   w_n : nat;                    (* bytes accepted *)
   w_calls : list seal_call;     (* every call of sendAead.Seal, in order *)
   w_sent : list cipher;         (* sealed frames handed to conn.Write, in order *)
+  w_wire : list (bytes * cipher); (* the same with the nonce each was sealed under (log) *)
   w_nonce : bytes;              (* sendNonce afterwards *)
   w_panic : bool                (* incrNonce panicked *)
 }.
@@ -77,7 +78,7 @@ Record wres := {
    moved on, see Props C16_nonce_unique). *)
 Fixpoint write_loop (fuel : nat) (k : key) (nonce : bytes) (data : bytes) : wres :=
   match fuel with
-  | O => {| w_n := 0; w_calls := []; w_sent := []; w_nonce := nonce; w_panic := false |}
+  | O => {| w_n := 0; w_calls := []; w_sent := []; w_wire := []; w_nonce := nonce; w_panic := false |}
   | S f =>
     if (0 <? length data)%nat then
       let chunk := if (data_max_size <? length data)%nat then firstn data_max_size data else data in
@@ -86,13 +87,15 @@ Fixpoint write_loop (fuel : nat) (k : key) (nonce : bytes) (data : bytes) : wres
       let sealed := seal k nonce frame in
       let call := {| sl_nonce := nonce; sl_plain := frame; sl_out := sealed |} in
       match incr_nonce nonce with
-      | None => {| w_n := 0; w_calls := [call]; w_sent := []; w_nonce := nonce; w_panic := true |}
+      | None => {| w_n := 0; w_calls := [call]; w_sent := []; w_wire := [];
+                  w_nonce := nonce; w_panic := true |}
       | Some nonce' =>
         let r := write_loop f k nonce' rest in
         {| w_n := length chunk + w_n r; w_calls := call :: w_calls r; w_sent := sealed :: w_sent r;
+           w_wire := (nonce, sealed) :: w_wire r;
            w_nonce := w_nonce r; w_panic := w_panic r |}
       end
-    else {| w_n := 0; w_calls := []; w_sent := []; w_nonce := nonce; w_panic := false |}
+    else {| w_n := 0; w_calls := []; w_sent := []; w_wire := []; w_nonce := nonce; w_panic := false |}
   end.
 
 Definition write (k : key) (nonce : bytes) (data : bytes) : wres :=
@@ -169,6 +172,7 @@ Arguments sl_out {cipher} s.
 Arguments w_n {cipher} w.
 Arguments w_calls {cipher} w.
 Arguments w_sent {cipher} w.
+Arguments w_wire {cipher} w.
 Arguments w_nonce {cipher} w.
 Arguments w_panic {cipher} w.
 
